@@ -309,7 +309,7 @@ func verifC13PendingRead() {
 	verifReach("done")
 }
 
-// C13(a'') — both handles have a read pending when a datagram arrives and one
+// C13(a”) — both handles have a read pending when a datagram arrives and one
 // of them is closed at about the same time: the wake-up that the datagram
 // caused is not lost with the closed handle. Either the closed handle's read
 // took the datagram before the close got to it, or the sibling's pending read
